@@ -59,6 +59,17 @@ Proof. intros []; repeat split; reflexivity. Qed.
 Theorem gen_supported_versions_wire_model : gen_supported_versions_wire = Ok supported_versions_wire.
 Proof. reflexivity. Qed.
 
+(* the name a version is printed under (Display, the client's verbose output): total, a constant of the
+   version alone, and the two supported versions print differently *)
+Theorem gen_version_as_string_names : forall v w,
+  (exists name, gen_version_as_string v = Ok name /\ name <> [])
+  /\ (gen_version_as_string v = gen_version_as_string w -> v = w).
+Proof.
+  intros v w. split.
+  - destruct v; eexists; (split; [reflexivity | discriminate]).
+  - destruct v, w; intro H; try reflexivity; vm_compute in H; discriminate H.
+Qed.
+
 Theorem gen_tag_table_model :
   forall t, gen_tag_wire_value t = Ok (tag_wire t) /\ gen_tag_as_string t = Ok (tag_display t)
             /\ gen_tag_is_nested t = Ok (tag_nested t).
